@@ -110,7 +110,7 @@ PROPS["C04"] = dict(
 PROPS["C19"] = dict(
     level="model_checking",
     technique="deviation-bounded exhaustive enumeration of callback programs (all programs up to length L over 17 token-mutating calls) on the real checker, differential oracle",
-    level_text=("every callback program of length <= 2 (quick) / <= 3 (thorough) over 17 header/claim set/replace/delete/merge/get "
+    level_text=("every callback program of length <= 2 (quick) / <= 4 (thorough) over 17 header/claim set/replace/delete/merge/get "
                 "calls is installed on the real checker for every claim-check configuration (8) x keyed/key-less x 9 payloads x 3 "
                 "signature kinds; the verdict must equal that of the same checker without a callback; non-zero returns must "
                 "always reject"),
@@ -118,7 +118,7 @@ PROPS["C19"] = dict(
     rule=("states = callback programs; transitions = (program, configuration, token) cells each executing two real verifications; "
           "a case is non-trivial when the callback actually ran (token parsed); distinct by descriptor"),
     runs=lambda tier: [dict(harness="claims", args=["--param", 0])] + ([dict(harness="claims", args=["--param", 1])] if tier == "thorough" else []),
-    bound=dict(quick="all programs of length <= 2 (307)", thorough="all programs of length <= 3 (5220), both providers"),
+    bound=dict(quick="all programs of length <= 2 (307)", thorough="all programs of length <= 4 (88 741), both providers"),
     assumptions=["callbacks that change config->key/alg are C02's routes; here the config is left untouched"],
     budget_s=dict(quick=600, thorough=2400),
 )
@@ -184,7 +184,7 @@ PROPS["C16"] = dict(
     technique="explicit-state BFS over keyring operation histories on the real jwk_set (dedup on the model list), reference list advanced in lock-step, all observers compared after every step",
     level_text=("breadth-first search over histories of 14 operations (loads of a good key, a duplicate-kid key, a bad key, a mixed "
                 "three-element set, non-JSON, an empty set; free at first/middle/last/n/SIZE_MAX; free_bad; free_all; error_clear) "
-                "with the list capped at 9 items, depth 5 (quick) / 8 (thorough); every history is replayed on a fresh real keyring "
+                "with the list capped at 9 items, depth 5 (quick) / 9 (thorough); every history is replayed on a fresh real keyring "
                 "and after every step count, get(i) for i <= n+1, find_bykid for seven kids, error_any, set error and per-item "
                 "kid/kty/error are compared with ref_list; ASan watches for use-after-free; live blocks of libjwt, jansson and "
                 "libcrypto are counted per history for leaks"),
@@ -192,7 +192,7 @@ PROPS["C16"] = dict(
     rule=("states = distinct model lists; transitions = state x operation, each executed on the real keyring by replaying the state's "
           "shortest history; non-trivial = the operation changed the list or the error flag"),
     runs=lambda tier: [dict(harness="jwk")],
-    bound=dict(quick="depth 5, list length <= 9", thorough="depth 8, list length <= 9"),
+    bound=dict(quick="depth 5, list length <= 9", thorough="depth 9, list length <= 9"),
     assumptions=["libcrypto allocation accounting uses CRYPTO_set_mem_functions; a non-zero delta is confirmed by two repeat runs before it is called a leak"],
     budget_s=dict(quick=600, thorough=3000),
 )
